@@ -334,7 +334,7 @@ impl Monitor for C10 {
          match in arity only (one label differs), or differ in arity: compose / >> defined iff types match, lax_compose iff arities match, strict(f;g) isomorphic to the model \
          composite and to strict(f);strict(g) computed by the library, same for tensor and dagger; tensor_assign / append / coproduct_assign compared by derived equality with the pure \
          operations, append must return exactly the offset interfaces; (c) singleton, identity, twist, spider and unit compared after strictification. non-trivial = >=1 hyperedge and \
-         >=1 boundary node; distinct = hash of the instance."
+         >=1 boundary node; distinct = hash of the instance. Also: every operand's to_strict is compared with the model quotient and is_strict with the absence of pending pairs; lax_compose and >> are compared field by field with juxtaposition + one pending pair per boundary position (pairs as a multiset of unordered pairs), also when the labels differ, where the mismatch must surface as a failing quotient; in-place variants compared on raw fields; round trips of diagrams of up to 40 nodes."
     }
     fn corpus_len(&self) -> u64 {
         4
